@@ -56,15 +56,19 @@ class BuildError(Exception):
 
 
 def build(jobs=16):
-    """Regenerate Gen/*.v from /repo (translator), then full .vo build, extraction, OCaml runner.
-    Serialised by a file lock so concurrent checks share one build."""
+    """Regenerate Gen/*.v from the repository (translator), then full .vo build, extraction, OCaml runner.  Serialised by a file
+    lock so concurrent checks share one build.  Degrades instead of stopping: a translator module that refuses the source poisons
+    its own output file; when `make` fails, everything that can still be built is built (`make -k`) and the compiled files of every
+    target that is NOT up to date (the failed files and all their dependents, from a dry run) are deleted, so that nothing is ever
+    checked against a stale model.  Returns what is broken; the caller decides what that means for its property."""
     os.makedirs(os.path.join(COQ, 'Gen'), exist_ok=True)
     with open(os.path.join(VERIF, '.build.lock'), 'w') as lk:
         fcntl.flock(lk, fcntl.LOCK_EX)
         t0 = time.time()
+        info = {'translator': None, 'make': None, 'stale': [], 'runner_ok': True}
         rc, out = sh(f'/venv/bin/python {VERIF}/tools/py2v.py', 120, cwd=VERIF)
         if rc != 0:
-            raise BuildError('translator', out)
+            info['translator'] = out[-3000:]
         if not os.path.exists(os.path.join(COQ, 'Makefile')) or \
                 os.path.getmtime(os.path.join(COQ, '_CoqProject')) > os.path.getmtime(os.path.join(COQ, 'Makefile')):
             rc, out = sh('coq_makefile -f _CoqProject -o Makefile', 60, cwd=COQ)
@@ -72,15 +76,32 @@ def build(jobs=16):
                 raise BuildError('coq_makefile', out)
         rc, out = sh(f'timeout 1500 make -j{jobs} 2>&1', 1600, cwd=COQ)
         if rc != 0:
-            raise BuildError('make', out)
+            info['make'] = out[-3000:]
+            sh(f'timeout 1500 make -k -j{jobs} 2>&1', 1600, cwd=COQ)
+            _, dry = sh('make -n -k 2>&1', 120, cwd=COQ)
+            stale = sorted(set(re.findall(r'COQC\s+(\S+\.v)\b', dry)) | set(re.findall(r'coqc[^\n]*?\s(\S+\.v)\b', dry)))
+            info['stale'] = stale
+            for v in stale:
+                for ext in ('.vo', '.vok', '.vos', '.glob'):
+                    try:
+                        os.remove(os.path.join(COQ, v[:-2] + ext))
+                    except OSError:
+                        pass
         ex = os.path.join(COQ, 'Extract')
         runner = os.path.join(ex, 'runner')
         srcs = [os.path.join(ex, f) for f in ('model.ml', 'model.mli', 'driver.ml')]
-        if not os.path.exists(runner) or any(os.path.getmtime(s) > os.path.getmtime(runner) for s in srcs):
+        if 'Extract/Extract.v' in info['stale'] or not all(os.path.exists(s) for s in srcs):
+            info['runner_ok'] = False        # the model itself does not build: no correspondence possible
+            try:
+                os.remove(runner)
+            except OSError:
+                pass
+        elif not os.path.exists(runner) or any(os.path.getmtime(s) > os.path.getmtime(runner) for s in srcs):
             rc, out2 = sh('ocamlfind ocamlopt -O3 -w -a model.mli model.ml driver.ml -o runner 2>&1', 300, cwd=ex)
             if rc != 0:
                 raise BuildError('ocamlopt', out2)
-        return {'build_s': round(time.time() - t0, 2), 'log_tail': out[-2000:]}
+        info['build_s'] = round(time.time() - t0, 2)
+        return info
 
 
 _FORBIDDEN = re.compile(r'\b(Admitted|admit|Axiom|Parameter|Conjecture|Abort All)\b|Unset Guard|bypass_check|'
@@ -384,17 +405,27 @@ class Ctx:
 
 
 def standard_prologue(ctx):
-    """build + forbidden-scan + property file; records obligation-level violations.  Returns True if the
-    model runner is usable."""
+    """build + forbidden-scan + property file; records obligation-level violations.  Returns True if the model runner is usable.
+    A translator refusal or a broken proof elsewhere in the development is a violation for THIS property exactly when this
+    property's own files (Properties/Cxx*.v and what they depend on) or the model runner no longer build; the search for a failing
+    input goes on in either case whenever the runner is usable."""
     usable = True
     try:
         info = build()
-        ctx.extra['build'] = {'build_s': info['build_s']}
+        ctx.extra['build'] = {k: info[k] for k in ('build_s', 'stale', 'runner_ok')}
+        if info['translator']:
+            ctx.extra['build']['translator'] = info['translator'][-600:]
     except BuildError as e:
         ctx.violation(f'build:{e.what}', f'{e.what} failed: the proof development no longer builds against the current '
                       f'source', {'obligation': e.what, 'log': e.log[-3000:]}, kind='obligation')
         ctx.proof = {'obligations': 1, 'discharged': 0, 'theorems': [], 'axioms': []}
         return False
+    if not info['runner_ok']:
+        usable = False
+        ctx.violation('build:model-runner', 'the executable model (Model/Run.v -> Extract) no longer builds against the current source: '
+                      + (info['translator'] or info['make'] or '')[-400:],
+                      {'obligation': 'model runner', 'translator': info['translator'], 'make': info['make'], 'stale': info['stale']},
+                      kind='obligation')
     bad = scan_forbidden()
     if bad:
         ctx.violation('forbidden-construct', 'escape hatch in the Coq development', {'obligation': 'scan', 'hits': bad},
@@ -408,7 +439,13 @@ def standard_prologue(ctx):
             ctx.violation('proof:coqchk:' + ctx.prop, 'the independent checker coqchk rejects the compiled property files or reports an axiom outside '
                           'the whitelist', {'obligation': 'coqchk', 'report': ck}, kind='obligation')
     if not pr['ok']:
-        ctx.violation('proof:' + ctx.prop, f'Properties/{ctx.prop}.v no longer checks (or uses a non-whitelisted axiom)',
-                      {'obligation': f'Properties/{ctx.prop}.v', 'foreign_axioms': pr['foreign_axioms'], 'log': pr['log']},
+        why = ''
+        if info['translator']:
+            why = ' — translator: ' + info['translator'].strip()[-300:]
+        elif info['stale']:
+            why = ' — no longer compiling: ' + ', '.join(info['stale'][:6])
+        ctx.violation('proof:' + ctx.prop, f'Properties/{ctx.prop}*.v no longer check against the current source (or use a non-whitelisted axiom)' + why,
+                      {'obligation': f'Properties/{ctx.prop}*.v', 'foreign_axioms': pr['foreign_axioms'], 'log': pr['log'],
+                       'translator': info['translator'], 'not_compiling': info['stale'], 'make': (info['make'] or '')[-1500:]},
                       kind='obligation')
     return usable
